@@ -1,7 +1,89 @@
 import Driver.Proto
-/- driver commands of area `graph` (stub until the area is built) -/
-namespace Driver.Graph
+import MesonModel.Ninja.Manifest
+import MesonModel.Graph.Model
+/-
+driver commands of area `graph` (C05)
 
-def handle (cmd : String) (fs : List String) : String := "bad-op"
+  sched <manifest text>|<included step indices, `,`-joined>|<schedule>;<schedule>;…      (a schedule = `,`-joined indices)
+      -> OK|n=<number of build statements>|anc=<i>:<ancestors of i, blank separated, ascending>,…  (for the included steps,
+            computed on the whole graph)|closed=<1 iff every ancestor list passed the closedness check>|valid=<one bit per
+            schedule: valid and complete for the graph restricted to the included steps>
+      -> ERR:Parse:<kind>:<chars-left> / ERR:Load:<kind>:<arg>   (the C04 manifest model rejects the text)
+  valid <n>|<edges: ins>outs;…  with paths as numbers, `,`-joined>|<schedule>     -> 0/1   (abstract graphs, for tests)
+
+Step i is the i-th `build` statement of the file (0-based); its declared inputs are explicit ++ implicit ++ order-only
+inputs, its outputs explicit ++ implicit outputs (validations `|@` are not dependencies).
+-/
+namespace Driver.Graph
+open MesonModel.Graph
+open MesonModel.Ninja (Manifest BuildStmt Str)
+
+def idxOf (l : List Str) (s : Str) : Nat :=
+  match l.findIdx? (· == s) with
+  | some i => i
+  | none => l.length
+
+/-- the manifest as an execution graph over interned paths (only identity of paths matters here) -/
+def mkGraph (m : Manifest) : Graph Nat Nat Unit :=
+  let outs := (m.builds.flatMap (fun b => b.outs ++ b.implOuts)).eraseDups
+  let arr := (m.builds.map (fun b =>
+    (((b.ins ++ b.implIns ++ b.orderIns).map (idxOf outs)).filter (· < outs.length),
+     (b.outs ++ b.implOuts).map (idxOf outs)))).toArray
+  { steps := List.range arr.size,
+    step := fun i => match arr[i]? with
+      | some (is, os) => { ins := is, outs := os }
+      | none => { ins := [], outs := [] } }
+
+def natList (f : String) (sep : String) : List Nat :=
+  if f.trimAscii.isEmpty then [] else (f.splitOn sep).filterMap (fun w => w.trimAscii.toString.toNat?)
+
+def sortNat (l : List Nat) : List Nat := (l.toArray.qsort (· < ·)).toList
+
+def loadText (t : Str) : Except String Manifest :=
+  match MesonModel.Ninja.parse t with
+  | .error (e, n) => .error s!"ERR:Parse:{e.name}:{n}"
+  | .ok ss =>
+    match MesonModel.Ninja.load ss with
+    | .error e => .error s!"ERR:Load:{e.name}:{encodeStr e.arg}"
+    | .ok m => .ok m
+
+def schedCmd (t inc scheds : String) : String :=
+  match loadText (decodeStr t) with
+  | .error e => e
+  | .ok m =>
+    let g := mkGraph m
+    let included := natList inc ","
+    let ancs := included.map (fun i => (i, ancestorsB g i))
+    let closed := ancs.all (fun ia => ancClosedB g ia.1 ia.2)
+    let g' : Graph Nat Nat Unit := { g with steps := included }
+    let ss := if scheds.trimAscii.isEmpty then [] else scheds.splitOn ";"
+    let bits := ss.map (fun s => let o := natList s ","; boolStr (validScheduleB g' o && completeB g' o))
+    let ancStr := ",".intercalate (ancs.map (fun ia =>
+      s!"{ia.1}:" ++ " ".intercalate ((sortNat ia.2).map toString)))
+    s!"OK|n={g.steps.length}|anc={ancStr}|closed={boolStr closed}|valid={String.join bits}"
+
+def absGraph (edges : String) : Graph Nat Nat Unit :=
+  let es := if edges.trimAscii.isEmpty then [] else edges.splitOn ";"
+  let arr := (es.map (fun e => match e.splitOn ">" with
+    | [i, o] => (natList i ",", natList o ",")
+    | _ => ([], []))).toArray
+  { steps := List.range arr.size,
+    step := fun i => match arr[i]? with
+      | some (is, os) => { ins := is, outs := os }
+      | none => { ins := [], outs := [] } }
+
+def handle (cmd : String) (fs : List String) : String :=
+  match cmd, fs with
+  | "sched", [t, inc, scheds] => schedCmd t inc scheds
+  | "valid", [edges, s] =>
+    let g := absGraph edges
+    let o := natList s ","
+    boolStr (validScheduleB g o) ++ boolStr (completeB g o)
+  | "anc", [edges, i] =>
+    let g := absGraph edges
+    match i.trimAscii.toString.toNat? with
+    | some k => " ".intercalate ((sortNat (ancestorsB g k)).map toString) ++ "|" ++ boolStr (ancClosedB g k (ancestorsB g k))
+    | none => "bad-op"
+  | _, _ => "bad-op"
 
 end Driver.Graph
